@@ -195,6 +195,20 @@ func ruleDryFlagForwarded(c *eng.Ctx) {
 		}
 		return rec(v, 0)
 	}
+	type lockedSite struct {
+		root, key string
+		call      ssa.CallInstruction
+	}
+	var alwaysLocked []lockedSite
+	rootsWithDry := map[string]string{}
+	defer func() {
+		// a command whose dry-run flag reaches one open call must forward it at all of them
+		for _, s := range alwaysLocked {
+			if f, ok := rootsWithDry[s.root]; ok {
+				c.Bad(rule, s.key+":dry-run-not-forwarded-here", s.call.Pos(), "%s forwards its --dry-run flag (%s) at another open call but opens the repository with a constant here: with --dry-run this path would write to the repository", s.root, f)
+			}
+		}
+	}()
 	n := 0
 	for _, fn := range c.P.Funcs {
 		if eng.PkgOf(fn) != "cmd/restic" {
@@ -224,6 +238,9 @@ func ruleDryFlagForwarded(c *eng.Ctx) {
 			if k, ok := arg.(*ssa.Const); ok && k.Value != nil && k.Value.String() == "false" {
 				isFalse = true
 			}
+			if dryF != nil {
+				rootsWithDry[root] = dryFields[dryF]
+			}
 			switch {
 			case name == "cmd/restic.openWithReadLock":
 				c.Check(usesNoLock || isFalse, rule, key+":no-lock", call.Pos(), "a read command skips the lock only for --no-lock (the repository is then put into dry-run mode)")
@@ -234,6 +251,7 @@ func ruleDryFlagForwarded(c *eng.Ctx) {
 				covered[dryF] = true
 				c.Ok(rule, key+":dry-run-forwarded", call.Pos(), "the --dry-run flag (%s) decides whether the repository is opened in dry-run mode", dryFields[dryF])
 			case isFalse || usesNoLock:
+				alwaysLocked = append(alwaysLocked, lockedSite{root, key, call})
 				c.Ok(rule, key+":always-locked", call.Pos(), "no dry-run flag: the repository is locked (or --no-lock ⇒ dry-run)")
 			default:
 				c.Bad(rule, key+":unknown-dry-run-argument", call.Pos(), "the dryRun argument of the open call is neither a --dry-run flag field, --no-lock nor false")
